@@ -260,3 +260,4 @@ def oracle(line, out_full, expect):
             return "expected %d rejected flips, got %d: %s" % (expect[1], n, out)
         return None
     return None
+from ties import of as _tie_of; TIE_LAYOUTS, TIE_PINS, TIE_ENUMS = _tie_of("C16")   # static-tie lemmas (coq/Gen/Tie) this property depends on
